@@ -462,22 +462,30 @@ fn removal_sig(s: &Sys, verifier: u64, client: u64, amount: &BigInt, good: bool)
 pub fn build(s: &Sys, op: &Op, epoch: i64) -> Built {
     let vr = VERIFIED_REGISTRY_ACTOR_ADDR;
     let dc = DATACAP_TOKEN_ACTOR_ADDR;
+    // an account named in the parameters is presented by its key address in a third of the messages
+    // (the registry resolves it; the model and the op line keep the id)
+    let pa = |x: u64| -> Address {
+        match s.accounts.iter().position(|a| *a == id(x)) {
+            Some(i) if (x + epoch as u64) % 3 == 0 => s.keys[i],
+            _ => id(x),
+        }
+    };
     match op {
         Op::Advance { .. } => unreachable!(),
         Op::AddVerifier { caller, addr, allowance } => Built {
             line: format!("addverifier {} {} {}", caller, addr, allowance),
             from: id(*caller), to: vr, method: VrMethod::AddVerifier as u64,
-            params: ser(&VerifierParams { address: id(*addr), allowance: allowance.clone() }),
+            params: ser(&VerifierParams { address: pa(*addr), allowance: allowance.clone() }),
         },
         Op::RemoveVerifier { caller, addr } => Built {
             line: format!("removeverifier {} {}", caller, addr),
             from: id(*caller), to: vr, method: VrMethod::RemoveVerifier as u64,
-            params: ser(&RemoveVerifierParams { verifier: id(*addr) }),
+            params: ser(&RemoveVerifierParams { verifier: pa(*addr) }),
         },
         Op::AddClient { caller, client, allowance } => Built {
             line: format!("addclient {} {} {} {}", epoch, caller, client, allowance),
             from: id(*caller), to: vr, method: VrMethod::AddVerifiedClient as u64,
-            params: ser(&VerifierParams { address: id(*client), allowance: allowance.clone() }),
+            params: ser(&VerifierParams { address: pa(*client), allowance: allowance.clone() }),
         },
         // the model's sigOk = the verifier is an account actor (it has AuthenticateMessage) and the
         // signature bytes are the ones over the proposal with the current proposal id
@@ -488,7 +496,7 @@ pub fn build(s: &Sys, op: &Op, epoch: i64) -> Built {
                 (*sig2_ok && s.accounts.contains(&id(*v2))) as u8, amount),
             from: id(*caller), to: vr, method: VrMethod::RemoveVerifiedClientDataCap as u64,
             params: ser(&RemoveDataCapParams {
-                verified_client_to_remove: id(*client),
+                verified_client_to_remove: pa(*client),
                 data_cap_amount_to_remove: amount.clone(),
                 verifier_request_1: RemoveDataCapRequest { verifier: id(*v1), signature: removal_sig(s, *v1, *client, amount, *sig1_ok) },
                 verifier_request_2: RemoveDataCapRequest { verifier: id(*v2), signature: removal_sig(s, *v2, *client, amount, *sig2_ok) },
